@@ -38,8 +38,11 @@ def model_points(drv):
     return model(drv, ["points"])[0].split(",")
 
 
-def new_project(sb, files=None):
-    sb.write(".sloc-guard.toml", CONFIG)
+CONFIG_AUTO = CONFIG + "[trend]\nauto_snapshot_on_check = true\n"
+
+
+def new_project(sb, files=None, config=None):
+    sb.write(".sloc-guard.toml", config or CONFIG)
     for rel, txt in (files or {"a.rs": BIG, "b.rs": SMALL}).items():
         sb.write(rel, txt)
 
@@ -74,9 +77,27 @@ def read_state(path):
     if len(raw) == 0:
         return "empty", None, 0
     try:
-        return "ok", json.loads(raw.decode("utf-8")), len(raw)
+        return "ok", canon_doc(json.loads(raw.decode("utf-8"))), len(raw)
     except Exception:
         return "torn", None, len(raw)
+
+
+def norm_key(k):
+    """State-file keys may be absolute paths: make them relative to the sandbox project directory
+    (every case runs in its own copy of a template, so the absolute prefix differs from run to run)."""
+    if k.startswith("/") and "/proj/" in k:
+        return "./" + k.split("/proj/", 1)[1]
+    return k
+
+
+def canon_doc(doc):
+    """Documents with a map of per-path entries are compared as a sorted list of (normalised key, entry):
+    map order is arbitrary, and two absolute spellings of one relative path must stay two entries."""
+    if isinstance(doc, dict) and isinstance(doc.get("files"), dict):
+        d = dict(doc)
+        d["files"] = sorted(([norm_key(k), v] for k, v in doc["files"].items()), key=lambda kv: json.dumps(kv, sort_keys=True))
+        return d
+    return doc
 
 
 def entries_of(kind, doc):
@@ -87,7 +108,7 @@ def entries_of(kind, doc):
     try:
         if kind == "history":
             return [e["timestamp"] for e in doc["entries"]]
-        return sorted(doc["files"].keys())
+        return sorted(k for k, _ in doc["files"])
     except Exception:
         return None
 
@@ -127,8 +148,8 @@ def large_baseline(n=8000):
     return json.dumps({"version": 2, "files": files}, indent=2)
 
 
-def large_cache(real_cache_doc, n=5000):
-    doc = json.loads(json.dumps(real_cache_doc))
+def large_cache(cache_path, n=5000):
+    doc = json.load(open(cache_path))
     for i in range(n):
         doc["files"]["./gen/f%05d.rs" % i] = {"hash": "%064x" % (i * 104729 + 3),
                                               "stats": {"total": 10, "code": 8, "comment": 1, "blank": 1, "ignored": 0},
